@@ -157,8 +157,9 @@ type freeEntry struct {
 }
 
 type poolState struct {
-	id   int
-	free []freeEntry
+	id     int
+	free   []freeEntry
+	listed map[unsafe.Pointer]int // how often an object is in free (2 = double Put)
 }
 
 type mutexState struct {
@@ -406,12 +407,10 @@ func (s *Sim) resume(t *task, rs resp) {
 	case KPut:
 		p := s.poolOf(r.key)
 		ptr := dataPtr(r.obj)
-		for _, e := range p.free {
-			if e.ptr == ptr {
-				s.stats.DoublePut++
-				break
-			}
+		if p.listed[ptr] > 0 {
+			s.stats.DoublePut++
 		}
+		p.listed[ptr]++
 		p.free = append(p.free, freeEntry{obj: r.obj, ptr: ptr, by: t.id, byStep: t.step})
 		s.lastPut = p
 	case KUnlock:
@@ -469,7 +468,7 @@ func (s *Sim) trace(t *task, kind, note string) {
 func (s *Sim) poolOf(key unsafe.Pointer) *poolState {
 	p := s.pools[key]
 	if p == nil {
-		p = &poolState{id: len(s.poolIdx)}
+		p = &poolState{id: len(s.poolIdx), listed: map[unsafe.Pointer]int{}}
 		s.pools[key] = p
 		s.poolIdx = append(s.poolIdx, p)
 	}
@@ -622,6 +621,7 @@ func (s *Sim) maybeDrop() {
 func (s *Sim) dropPool(p *poolState) {
 	s.stats.Drops++
 	p.free = p.free[:0:0]
+	p.listed = map[unsafe.Pointer]int{}
 	s.hash(0xd509, uint64(p.id))
 }
 
@@ -648,12 +648,18 @@ func (s *Sim) complete(t *task) resp {
 		}
 		idx := len(p.free) - 1 - k
 		e := p.free[idx]
-		p.free = append(p.free[:idx], p.free[idx+1:]...)
-		for _, o := range p.free {
-			if o.ptr == e.ptr {
-				s.stats.SameObjTwice++
-				break
-			}
+		if idx < len(p.free)/2 {
+			// shift the (shorter) front part
+			copy(p.free[1:idx+1], p.free[:idx])
+			p.free[0] = freeEntry{}
+			p.free = p.free[1:]
+		} else {
+			p.free = append(p.free[:idx], p.free[idx+1:]...)
+		}
+		if p.listed[e.ptr]--; p.listed[e.ptr] > 0 {
+			s.stats.SameObjTwice++
+		} else {
+			delete(p.listed, e.ptr)
 		}
 		if e.by != t.id {
 			s.stats.CrossReuse++
